@@ -361,7 +361,7 @@ static Rsp run_raw(const uint8_t *cmd, uint32_t n) {
     else r.rc = 0xFFFFFFFF;
     g_n_cmds++; if (r.rc == 0) g_n_ok++;
     g_cmd_id++;
-    if (g_trace_x) { tr_begin("x loc=%d started=1 ret=%u bufsize=%u infail=%d", g_locality, r.ret, r.bufsize, g_inFailureMode); trhex("req", cmd, n); trhex("rsp", r.p, r.len); tr_end(); }
+    if (g_trace_x && !(n >= 10 && g32(cmd + 6) == 0x144 /* the Startup that begins a borrowed history */)) { tr_begin("x loc=%d started=1 ret=%u bufsize=%u infail=%d", g_locality, r.ret, r.bufsize, g_inFailureMode); trhex("req", cmd, n); trhex("rsp", r.p, r.len); tr_end(); }
     if (g_resp_md) {
         uint32_t ccx = n >= 10 ? g32(cmd + 6) : 0;
         /* responses that legitimately contain host-side randomness (ECDSA nonces from OpenSSL) or raw structure padding
